@@ -323,6 +323,11 @@ def history(rng, version, length, profile):
                ["set", n, c2, vt2, set_value_for(rng, version, vt2, unicode_ok=False), {}],
                ["in", f"{n};{c1};1;0;{vt1};{vals[2]}"],
                ["in", wake_line(rng, version, n)]]
+        if profile.get("cbset") and rng.random() < 0.5:
+            # the controller answers the sleeping node's last report from inside the event callback (same child and type)
+            idx = max(i for i, x in enumerate(st) if x[0] == "in" and x[1].startswith(f"{n};{c1};1;0;{vt1};"))
+            st[idx:idx] = [["cbset"]]
+            st += [["in", f"{n};{c1};2;0;{vt1};"], ["in", wake_line(rng, version, n)]]
         # randomly drop a few skeleton steps so the shapes vary
         st = [s for s in st if rng.random() < 0.9]
     if profile.get("ota") and rng.random() < 0.8:
@@ -397,6 +402,8 @@ def history(rng, version, length, profile):
                 st.append(["fw", rng.choice([1, 2, [1, 2], 9, [3, 9]]), ft, fv, img])
             elif m < 0.92:
                 st.append(["metric", rng.random() < 0.5])
+            elif profile.get("cbset") and rng.random() < 0.6:
+                st.append(["cbset"])
             elif profile.get("cbraise"):
                 st.append(["cbraise", rng.random() < 0.5])
         elif k < 0.9 or not two:
